@@ -26,12 +26,15 @@ case "${CS_LINK:-}" in
   *)    LINK="-L$P/src/.libs -lmyth -lpthread -ldl"; LSUB="" ;;
 esac
 $cc -O2 -g -I$P/include -I$P/src $demo -o /tmp/cs-$id-demo $LINK 2>/tmp/cs-$id-cc.log || { echo "CONFIRM $id demo-build-failed"; exit 2; }
+# the same demo built against the unpatched tree (matters for changes in headers that clients inline, e.g. mtbb)
+ULINK=$(echo "$LINK" | sed "s#$P#$U#g")
+$cc -O2 -g -I$U/include -I$U/src $demo -o /tmp/cs-$id-demo-U $ULINK 2>>/tmp/cs-$id-cc.log || { echo "CONFIRM $id demo-build-failed (unpatched)"; exit 2; }
 fp=0; fu=0
 for i in $(seq 1 $runs); do
   lp=$P/src/.libs; lu=$U/src/.libs
   [ -n "$LSUB" ] && { lp=$P/src/profiler/.libs:$lp; lu=$U/src/profiler/.libs:$lu; }
   env MYTH_BIND_WORKERS=0 MYTH_NUM_WORKERS=$nw ${CS_ENV:-} LD_LIBRARY_PATH=$lp timeout 300 /tmp/cs-$id-demo "$@" >/dev/null 2>&1 || fp=$((fp+1))
-  env MYTH_BIND_WORKERS=0 MYTH_NUM_WORKERS=$nw ${CS_ENV:-} LD_LIBRARY_PATH=$lu timeout 300 /tmp/cs-$id-demo "$@" >/dev/null 2>&1 || fu=$((fu+1))
+  env MYTH_BIND_WORKERS=0 MYTH_NUM_WORKERS=$nw ${CS_ENV:-} LD_LIBRARY_PATH=$lu timeout 300 /tmp/cs-$id-demo-U "$@" >/dev/null 2>&1 || fu=$((fu+1))
 done
 echo "CONFIRM $id make-check-pass=$pass demo-fails-with-patch=$fp/$runs demo-fails-without-patch=$fu/$runs (workers=$nw args=$* link=${CS_LINK:-myth} env=${CS_ENV:-})"
-rm -f /tmp/cs-$id-demo
+rm -f /tmp/cs-$id-demo /tmp/cs-$id-demo-U
